@@ -1031,3 +1031,5 @@ F("U26", "C12", NS, "  for _ in range(c):\n    for j in range(r - 1", "  for _ i
 T("U27", "C12", NS, _RD, "      p_in = 2**(j - r)\n      cur = res[j]\n      res[j] = cur * p_in\n      res[j + 1] = res[j + 1] + cur * (1 - p_in)", "old value through a temporary, lower rank first")
 F("U28", "C13", TS, "    if isinstance(test_result, float) or isinstance(test_result, int):", "    if isinstance(test_result, float) and isinstance(test_result, int):", "R-C13-STATE", "a bare float is no longer wrapped (TypeError in the merge loop)")
 T("U29", "C13", TS, "    if isinstance(test_result, float) or isinstance(test_result, int):", "    if isinstance(test_result, (float, int)):", "one isinstance with a tuple")
+F("U30", "C14", ENS, "  if max_block_size is not None and step_size * max_block_size < n:", "  if max_block_size is not None:", "R-C14-SCATTER", "the 'truncation' may lengthen the input")
+T("U31", "C14", ENS, "  if max_block_size is not None and step_size * max_block_size < n:", "  if max_block_size is not None and n > max_block_size * step_size:", "comparison mirrored")
